@@ -172,4 +172,165 @@ theorem rangeProve_prefix (I : RangeInst F M) (hn : 0 < I.n) (G' H' : ℕ → M)
 
 end
 
+/-! ### the public generator iterator as coded (`Model.Gens.It`) against the party-major list -/
+
+
+theorem aggIter_succ (k : Kind) (n m : ℕ) :
+    aggIter k n (m + 1) = aggIter k n m ++ (List.range n).map (fun idx => (⟨k, m, idx⟩ : Gen)) := by
+  unfold aggIter
+  rw [List.range_succ, List.flatMap_append]
+  simp
+
+theorem aggIter_get (k : Kind) (n m i : ℕ) (hn : 0 < n) (hi : i < m * n) :
+    (aggIter k n m)[i]? = some ⟨k, i / n, i % n⟩ := by
+  induction m with
+  | zero => simp at hi
+  | succ m ih =>
+    rw [aggIter_succ]
+    by_cases h : i < m * n
+    · rw [List.getElem?_append_left (by rw [aggIter_length]; exact h)]; exact ih h
+    · have e : (m + 1) * n = m * n + n := Nat.succ_mul _ _
+      rw [List.getElem?_append_right (by rw [aggIter_length]; omega), aggIter_length]
+      have hlt : i - m * n < n := by omega
+      rw [List.getElem?_map, List.getElem?_range hlt]
+      have h1 : i / n = m := by
+        apply Nat.div_eq_of_lt_le <;> [skip; skip]
+        · omega
+        · rw [e]; omega
+      have h2 : i % n = i - m * n := by
+        have : i = n * m + (i - m * n) := by rw [Nat.mul_comm]; omega
+        conv_lhs => rw [this]
+        rw [Nat.mul_add_mod, Nat.mod_eq_of_lt hlt]
+      simp [h1, h2]
+
+
+
+def It.pos (s : It) : ℕ := s.party * s.n + s.gen
+
+/-- one step of the coded iterator against the flat position -/
+theorem next_spec (s : It) (hn : 0 < s.n) (hg : s.gen ≤ s.n) :
+    (s.next).1.n = s.n ∧ (s.next).1.m = s.m ∧ (s.next).1.gen ≤ s.n ∧
+    (It.pos s < s.m * s.n → (s.next).2 = some (It.pos s / s.n, It.pos s % s.n) ∧ It.pos (s.next).1 = It.pos s + 1) ∧
+    (s.m * s.n ≤ It.pos s → (s.next).2 = none ∧ s.m * s.n ≤ It.pos (s.next).1 ∧ (s.next).1.party ≥ s.m) := by
+  obtain ⟨n, m, party, gen⟩ := s
+  simp only [It.pos] at *
+  have e1 : (party + 1) * n = party * n + n := Nat.succ_mul _ _
+  by_cases hge : gen ≥ n
+  · have hgn : gen = n := le_antisymm hg hge
+    subst hgn
+    by_cases hp : party + 1 ≥ m
+    · have hm : m * gen ≤ (party + 1) * gen := Nat.mul_le_mul_right _ hp
+      simp only [It.next, hge, if_true, hp, ge_iff_le, le_refl]
+      refine ⟨trivial, trivial, by omega, ?_, ?_⟩
+      · intro h; omega
+      · intro _; exact ⟨trivial, by omega, trivial⟩
+    · have hm : (party + 1 + 1) * gen ≤ m * gen := Nat.mul_le_mul_right _ (by omega)
+      have e2 : (party + 1 + 1) * gen = (party + 1) * gen + gen := Nat.succ_mul _ _
+      simp only [It.next, hge, if_true, hp, ge_iff_le, le_refl, if_false]
+      refine ⟨trivial, trivial, by omega, ?_, ?_⟩
+      · intro _
+        refine ⟨?_, by omega⟩
+        rw [← e1, Nat.mul_div_cancel _ hn, Nat.mul_mod_left]
+      · intro h; omega
+  · have hlt : gen < n := by omega
+    by_cases hp : party ≥ m
+    · have hm : m * n ≤ party * n := Nat.mul_le_mul_right _ hp
+      simp only [It.next, hge, if_false, hp, ge_iff_le, if_true]
+      refine ⟨trivial, trivial, hg, ?_, ?_⟩
+      · intro h; omega
+      · intro h; exact ⟨trivial, h, trivial⟩
+    · have hm : (party + 1) * n ≤ m * n := Nat.mul_le_mul_right _ (by omega)
+      simp only [It.next, hge, if_false, hp, ge_iff_le]
+      refine ⟨trivial, trivial, by omega, ?_, ?_⟩
+      · intro _
+        refine ⟨?_, by omega⟩
+        have h1 : (party * n + gen) / n = party := by
+          rw [Nat.add_comm, Nat.add_mul_div_right _ _ hn, Nat.div_eq_of_lt hlt, Nat.zero_add]
+        have h2 : (party * n + gen) % n = gen := by
+          rw [Nat.add_comm, Nat.add_mul_mod_self_right, Nat.mod_eq_of_lt hlt]
+        rw [h1, h2]
+      · intro h; omega
+
+
+/-- state after `k` calls of `next` -/
+def It.after : ℕ → It → It
+  | 0, s => s
+  | k + 1, s => (It.after k s).next.1
+
+theorem after_inv (n m : ℕ) (hn : 0 < n) (k : ℕ) :
+    (It.after k (It.start n m)).n = n ∧ (It.after k (It.start n m)).m = m ∧ (It.after k (It.start n m)).gen ≤ n ∧
+    (k ≤ m * n → It.pos (It.after k (It.start n m)) = k) ∧ (m * n ≤ k → m * n ≤ It.pos (It.after k (It.start n m))) := by
+  induction k with
+  | zero => simp [It.after, It.start, It.pos]
+  | succ k ih =>
+    obtain ⟨h1, h2, h3, h4, h5⟩ := ih
+    have sp := next_spec (It.after k (It.start n m)) (by rw [h1]; exact hn) (by rw [h1]; exact h3)
+    rw [h1, h2] at sp
+    obtain ⟨s1, s2, s3, s4, s5⟩ := sp
+    refine ⟨s1, s2, s3, ?_, ?_⟩
+    · intro hk
+      have hk' : k ≤ m * n := by omega
+      have := s4 (by rw [h4 hk']; omega)
+      show It.pos (It.after k (It.start n m)).next.1 = k + 1
+      rw [this.2, h4 hk']
+    · intro hk
+      show m * n ≤ It.pos (It.after k (It.start n m)).next.1
+      by_cases hk' : m * n ≤ k
+      · exact (s5 (h5 hk')).2.1
+      · have hk'' : k ≤ m * n := by omega
+        have := s4 (by rw [h4 hk'']; omega)
+        rw [this.2, h4 hk'']; omega
+
+/-- **the coded iterator yields the party-major list, then `None` for ever** -/
+theorem next_after (n m : ℕ) (hn : 0 < n) (k : ℕ) :
+    (It.after k (It.start n m)).next.2 = if k < m * n then some (k / n, k % n) else none := by
+  obtain ⟨h1, h2, h3, h4, h5⟩ := after_inv n m hn k
+  have sp := next_spec (It.after k (It.start n m)) (by rw [h1]; exact hn) (by rw [h1]; exact h3)
+  rw [h1, h2] at sp
+  obtain ⟨_, _, _, s4, s5⟩ := sp
+  split
+  · next hk => have := (s4 (by rw [h4 (by omega)]; exact hk)).1; rw [this, h4 (by omega)]
+  · next hk => exact (s5 (h5 (by omega))).1
+
+/-- `size_hint` is exact at every reachable state -/
+theorem sizeHint_after (n m : ℕ) (hn : 0 < n) (k : ℕ) (hk : k ≤ m * n) :
+    (It.after k (It.start n m)).sizeHint = m * n - k := by
+  obtain ⟨h1, h2, h3, h4, _⟩ := after_inv n m hn k
+  have hp := h4 hk
+  unfold It.pos at hp
+  unfold It.sizeHint
+  rw [h1, h2] at *
+  generalize (It.after k (It.start n m)).party = p at *
+  generalize (It.after k (It.start n m)).gen = g at *
+  have hpm : p ≤ m := by
+    by_contra hc
+    have : (m + 1) * n ≤ p * n := Nat.mul_le_mul_right _ (by omega)
+    have e : (m + 1) * n = m * n + n := Nat.succ_mul _ _
+    omega
+  rw [Nat.mul_sub, Nat.mul_comm n m, Nat.mul_comm n p]
+  omega
+
+/-- `nth(j)` after `k` items is item `k + j` -/
+theorem nth_after (n m : ℕ) (hn : 0 < n) (j : ℕ) : ∀ k,
+    (It.nth j (It.after k (It.start n m))).2 = if k + j < m * n then some ((k + j) / n, (k + j) % n) else none := by
+  induction j with
+  | zero => intro k; simpa [It.nth] using next_after n m hn k
+  | succ j ih =>
+    intro k
+    have hnx := next_after n m hn k
+    unfold It.nth
+    split
+    · next s' heq =>
+      have : (It.after k (It.start n m)).next.2 = none := by rw [heq]
+      rw [hnx] at this
+      have hk : ¬ k < m * n := by intro h; simp [h] at this
+      rw [if_neg (by omega)]
+    · next s' x heq =>
+      have hs : s' = It.after (k + 1) (It.start n m) := by
+        show s' = (It.after k (It.start n m)).next.1; rw [heq]
+      rw [hs, ih (k + 1)]
+      have : k + 1 + j = k + (j + 1) := by omega
+      rw [this]
+
+
 end Bpp.GensThm
